@@ -56,6 +56,10 @@ func leafNF(v reflect.Value) interface{} {
 // valueNF normalises the value at one attribute position (field, element or map value).
 func valueNF(ab *AttrB, v reflect.Value, elem bool) interface{} {
 	if ab.A.Custom != nil {
+		// the hooks are opaque; nil and empty collections are identified as everywhere else
+		if (v.Kind() == reflect.Slice || v.Kind() == reflect.Map) && v.Len() == 0 {
+			return "custom:null"
+		}
 		b, _ := json.Marshal(v.Interface())
 		return "custom:" + string(b)
 	}
